@@ -18,7 +18,7 @@ VERIF = str(Path(__file__).resolve().parent.parent)
 REPO = os.environ.get("SPOX_REPO", "/work/repo-c10")
 assert REPO != "/repo", "never mutate /repo: point SPOX_REPO at a scratch worktree"
 R = REPO + "/src/spox/"
-OBLIGATION_ONLY = {"S1_new_attr_class", "S2_new_array_function", "S3_new_storing_init", "I7_lazy_tuple"}  # expected: exit 1, no-failing-input-found
+OBLIGATION_ONLY = {"S1_new_attr_class", "S2_new_array_function", "S3_new_storing_init", "I7_lazy_tuple", "F4_deref_keeps_ref_name"}  # expected: exit 1, no-failing-input-found
 EQUIVALENT = {"B21b_no_flatten", "M12_ravel_K", "M15_future_init_asarray", "M16_lazy_onnx_cache", "D2_raw_correct_large"}
 MUTS = {
  # Appendix B row 20
@@ -71,6 +71,11 @@ MUTS = {
  "A2_argdefault_ascontiguous": ("_graph.py", "        elif isinstance(info, np.ndarray):\n            ty = Tensor(info.dtype, info.shape)", "        elif isinstance(info, np.ndarray):\n            info = np.ascontiguousarray(info)\n            ty = Tensor(info.dtype, info.shape)"),
  "A3_argdefault_type_atleast1d": ("_graph.py", "            ty = Tensor(info.dtype, info.shape)\n            result[name] = Argument(", "            ty = Tensor(info.dtype, info.shape or (1,))\n            result[name] = Argument("),
  "A4_adapter_drops_zero_ints": ("_adapt.py", "    source_model = onnx.helper.make_model(", "    for _a in list(proto.attribute):\n        if _a.type == 2 and _a.i == 0:\n            proto.attribute.remove(_a)\n    source_model = onnx.helper.make_model("),
+ # round 6b: attribute references, the reverse dtype table, dtype spellings
+ "F1_ref_names_swapped": ("_attributes.py", "            name=self._name, ref_attr_name=self._outer_name, type=parent_type", "            name=self._outer_name, ref_attr_name=self._name, type=parent_type"),
+ "F2_string_reads_back_object": ("_utils.py", "    if ttype == onnx.TensorProto.STRING:\n        return np.dtype(str)  # Spox uses the str datatype for strings, not object\n", ""),
+ "F3_no_alias_normalisation": ("_utils.py", "        dtype = np.dtype(np.dtype(dtype_like).type)", "        dtype = np.dtype(dtype_like)"),
+ "F4_deref_keeps_ref_name": ("_attributes.py", "            return type(self)(self.value, self._name)", "            return type(self)(self.value, self._value._name)"),
  # new capture sites without a row: generated_capture_complete / generated_classes_complete must break
  "S1_new_attr_class": ("APPEND", "_attributes.py", "\n\nclass AttrInt64Matrix(Attr[list]):\n    _attribute_proto_type = AttributeProto.INTS\n\n    def _to_onnx_deref(self) -> AttributeProto:\n        return make_attribute(self._name, [x for r in self.value for x in r], attr_type=AttributeProto.INTS)\n"),
  "S2_new_array_function": ("APPEND", "_graph.py", "\n\ndef initializers(arrs: List[np.ndarray]) -> Tuple[Var, ...]:\n    return tuple(initializer(a) for a in arrs)\n"),
